@@ -83,6 +83,9 @@ func init() {
 	})
 	two := func(name, op string, swap bool) {
 		reg(name, func(in *Interp, fr *frame, a []value) value {
+			if v := in.caseViewTest(name, a); v != nil { // intr_C14.go
+				return v
+			}
 			_, xs := isSymStr(a[0])
 			_, ys := isSymStr(a[1])
 			if !xs && !ys {
@@ -157,7 +160,7 @@ func init() {
 			if in.solver.Kind == "cvc5" {
 				return in.mk(sStr, 0, "(str.to_"+op+" "+s.t+")")
 			}
-			panic(unsupported{"strings.To" + op + " on a solver-level string needs solver cvc5 (z3 has no case mapping); use a byte-vector string instead"})
+			return in.caseView(s, op) // z3 has no case mapping: see intr_C14.go
 		}
 	}
 	reg("strings.ToLower", lower("lower"))
